@@ -469,6 +469,8 @@ private:
         _allocated_bytes = total_allocated_size_in_bytes(dimensions);
         if (_allocated_bytes == 0)
         {
+            // nothing to allocate, but a 0xN image still has the requested dimensions
+            create_view(dimensions, std::false_type());
             return;
         }
 
@@ -490,6 +492,8 @@ private:
         _allocated_bytes = total_allocated_size_in_bytes( dimensions );
         if (_allocated_bytes == 0)
         {
+            // nothing to allocate, but a 0xN image still has the requested dimensions
+            create_view(dimensions, std::true_type());
             return;
         }
 
